@@ -133,12 +133,28 @@ def _api():
     return _API
 
 
+class _TooLong(BaseException):
+    pass
+
+
+def _too_long(signum, frame):
+    raise _TooLong()
+
+
 def _run_api(text):
     parse_expression, scope, lid = _api()
+    import signal
+    old = signal.signal(signal.SIGALRM, _too_long)
+    signal.setitimer(signal.ITIMER_REAL, 3.0)         # microseconds are normal; big-number arithmetic checks for signals
     try:
         return ('value', parse_expression(lid, text).get_value(scope, lid))
+    except _TooLong:
+        return ('timeout', 'in-process evaluation exceeded 3 s')
     except (Exception, SystemExit) as e:
         return ('rejected', type(e).__name__)
+    finally:
+        signal.setitimer(signal.ITIMER_REAL, 0)
+        signal.signal(signal.SIGALRM, old)
 
 
 def _run_cond(text, form, want):
@@ -291,7 +307,7 @@ def extra_phase(tier, seed):
             out = os.path.join(root, f's{k}')
             os.makedirs(os.path.join(out, 'corpus'))
             cmd = [runner.PYTHON, os.path.join(here, 'bvf', 'fuzz', 'expr_fuzz.py'), out, os.path.join(out, 'corpus'),
-                   f'-max_total_time={secs}', f'-seed={(seed * 1000 + k) % (2 ** 31) + 1}', '-rss_limit_mb=3000',
+                   f'-max_total_time={secs}', f'-seed={(seed * 1000 + k) % (2 ** 31) + 1}', '-rss_limit_mb=3000', '-timeout=20',
                    f'-artifact_prefix={out}/', '-print_final_stats=1', '-verbosity=0']
             procs.append((out, subprocess.Popen(cmd, cwd=out, stdout=subprocess.DEVNULL, stderr=subprocess.PIPE,
                                                 env=dict(os.environ, PYTHONHASHSEED='0'))))
